@@ -20,7 +20,7 @@ fn alphabet(_plan: &str, _v: &str, t: Tier) -> Alphabet {
         sems: vec![Sem::Default],
         gc_kinds: vec![false, true],
         bursts: if t == Tier::Thorough { vec![(264, 150, 2), (40, 400, 3), (2048, 40, 2), (8184, 12, 2)] } else { vec![(264, 100, 2), (40, 250, 3), (2048, 24, 2)] },
-        two_mutators: true,
+        eph_chains: vec![], two_mutators: true,
         pins: false,
         cross_writes: false,
         fields: 0,
